@@ -20,6 +20,7 @@ import Golib.Proof.C18Driver
 import Golib.Proof.C18GraphDriver
 import Golib.Proof.C18GraphR
 import Golib.Proof.C18Int64
+import Golib.Proof.C18Brute
 
 namespace Golib.C18
 
@@ -42,6 +43,19 @@ theorem c18_knapsack_optimal {α : Type} (br : Option (List α → List α → B
       ∀ t : List α, t.Sublist items → isum wf t ≤ W → isum vf t ≤ isum vf sel := by
   obtain ⟨sel, h1, _, _, h4⟩ := knapsackGo_spec br wf vf W items hW hw
   exact ⟨sel, h1, h4⟩
+
+/-- The VALUE `Knapsack` returns is the optimum computed by the plain "take it or leave it"
+recursion `bruteOpt` (which never builds a table, so it can be executed for limits of any size):
+this is what the driver answers on value-only lines with limits around 2^20 and above. -/
+theorem c18_knapsack_value {α : Type} (br : Option (List α → List α → Bool)) (wf vf : α → Int)
+    (W : Int) (items : List α) (hW : 0 ≤ W) (hw : ∀ x ∈ items, 0 ≤ wf x) :
+    ∃ sel, knapsackGo br wf vf W items = some sel ∧ sel.Sublist items ∧ isum wf sel ≤ W ∧
+      isum vf sel = bruteOpt wf vf items W :=
+  knapsack_value_eq_brute br wf vf W items hW hw
+
+-- limit 2^20 + 1 hit exactly by the weights 2^20 and 1 (value 7 + 5), not by 2^20 + 2^19
+example : bruteOpt (fun x : Int × Int => x.1) (fun x => x.2) [(1048576, 7), (524288, 6), (1, 5)] 1048577 = 12 ∧
+    bruteOpt (fun x : Int × Int => x.1) (fun x => x.2) [(1048576, 7), (524288, 6), (1, 5)] 1048576 = 11 := by decide
 
 /-- Non-vacuity: three items (weight, value), limit 5, a tie between {0,1} and {2} broken
 towards the newer list. -/
@@ -384,6 +398,15 @@ theorem c18_graph_api (ops : List GOp) (v u : Nat) :
     (gNb (gBuild ops) v u = true ↔ ∃ op ∈ ops, op.arc v u) ∧
     (gIsNode (gBuild ops) v = true ↔ ∃ op ∈ ops, op.node v) :=
   ⟨gNb_build ops v u, gIsNode_build ops v⟩
+
+/-- `Init` forgets everything: whatever calls came before it, the graph after `Init` followed by
+the calls `after` is the graph built by `after` alone on a fresh value (in particular the
+adjacency right after `Init` is empty and there are no nodes). -/
+theorem c18_graph_api_init (before after : List GOp) (v u : Nat) :
+    gNb (after.foldl gStep (gInit (gBuild before))) v u = gNb (gBuild after) v u ∧
+    gIsNode (after.foldl gStep (gInit (gBuild before))) v = gIsNode (gBuild after) v ∧
+    gNb (gInit (gBuild before)) v u = false ∧ gKeys (gInit (gBuild before)) = [] :=
+  ⟨rfl, rfl, rfl, rfl⟩
 
 /-- Two call sequences with the same set of calls build the same graph. -/
 theorem c18_graph_api_order_irrelevant (ops ops' : List GOp) (h : ∀ op, op ∈ ops ↔ op ∈ ops')
